@@ -61,4 +61,6 @@ def run(ctx):
             kinds[r_['kind']] = kinds.get(r_['kind'], 0) + 1
     res['distribution']['variant_kinds'] = kinds
     res['samples'] = res['samples'][:1] + [{'family_kinds': [r_['kind'] for r_ in fams[0]['family']], 'base_spec': fams[0]['family'][0]['spec']}]
-    return res
+    from props import collide
+    return collide.add(ctx, res, 'C06')
+
